@@ -1604,6 +1604,24 @@ def struct_eq(engine, st, a, b):
         return z3.Bool("eq(%s,%s)" % tuple(sorted([a.name, b.name])))
     if isinstance(a, FnV) and isinstance(b, FnV):
         return z3.BoolVal(a.name == b.name)
+    if isinstance(a, Adt) and isinstance(b, Sym):
+        a, b = b, a
+    if isinstance(a, Sym) and isinstance(b, Adt) and b.variant is not None and not a.over:
+        # an opaque enum value against a concrete variant: same discriminant and equal payloads
+        e = engine.reg.lookup(b.ty) or engine.reg.lookup(a.ty)
+        if e is None or b.variant not in e["by_name"]:
+            raise Unsupported("structural equality of %r and %r" % (a, b))
+        d = engine.discriminant(a, a.ty, "isize")
+        terms = [d == z3.BitVecVal(e["by_name"][b.variant], d.size())]
+        for i, fb in enumerate(b.fields):
+            if z3.is_bv(fb):
+                fty = "u%d" % fb.size()
+            elif z3.is_bool(fb):
+                fty = "bool"
+            else:
+                raise Unsupported("structural equality of %r and %r (payload %d)" % (a, b, i))
+            terms.append(struct_eq(engine, st, engine._child(a, ("field", i, fty, b.variant)), fb))
+        return z3.And(*terms)
     raise Unsupported("structural equality of %r and %r" % (a, b))
 
 
@@ -1698,6 +1716,7 @@ BUILTIN_MODELS = [
     (r"^Option::<.*>::take$", m_option_take),
     (r"^Box::<.*>::new$", m_box_new),
     (r"^Vec::<.*>::new$", m_vec_new),
+    (r"^Vec::<.*>::with_capacity$", m_vec_new),
     (r"^Vec::<.*>::push$", m_vec_push),
     (r"as Try>::branch$", m_try_branch),
     (r"as FromResidual<.*>>::from_residual$", m_from_residual),
